@@ -10,6 +10,7 @@ func extractAll(p *pkg, f *facts) {
 	codecFacts(p, f)
 	authFacts(p, f)
 	handleFacts(p, f)
+	cacheFacts(p, f)
 }
 
 func (p *pkg) constNat(f *facts, leanName, goName string) {
@@ -157,4 +158,50 @@ func handleFacts(p *pkg, f *facts) {
 		})
 	}
 	f.boolean("handlersStaleOnMiss", all && n >= 15, n > 0, "no lookupNode failure branches found")
+}
+
+func cacheFacts(p *pkg, f *facts) {
+	// defaults inside cache.go: `if X <= 0 { X = LIT }`
+	type d struct{ lean, fn, ident string; scale int64 }
+	for _, x := range []d{
+		{"attrCacheDefaultSize", "NewAttrCache", "maxSize", 1},
+		{"dirCacheDefaultEntries", "NewDirCache", "maxEntries", 1},
+		{"dirCacheDefaultMaxDirSize", "NewDirCache", "maxDirSize", 1},
+		{"dirTtlDefaultNs", "NewDirCache", "timeout", 1},
+		{"attrTtlDefaultNs", "AttrCache.UpdateTTL", "newTTL", 1},
+		{"attrResizeDefault", "AttrCache.Resize", "newSize", 1},
+		{"dirResizeDefault", "DirCache.Resize", "newMaxEntries", 1},
+		{"dirUpdateTtlDefaultNs", "DirCache.UpdateTTL", "newTimeout", 1},
+	} {
+		fn, ok := p.funcs[x.fn]
+		if !ok {
+			f.nat(x.lean, 0, false, "func "+x.fn+" not found")
+			continue
+		}
+		v, found := p.defaultOf(fn, x.ident)
+		f.nat(x.lean, v, found, "no `if "+x.ident+" <= 0 { "+x.ident+" = V }` in "+x.fn)
+	}
+	// negativeTTL default in NewAttrCache's literal
+	if fn, ok := p.funcs["NewAttrCache"]; ok {
+		v, found := p.compositeField(fn, "negativeTTL")
+		f.nat("negTtlDefaultNs", v, found, "no negativeTTL field in NewAttrCache literal")
+	} else {
+		f.nat("negTtlDefaultNs", 0, false, "func NewAttrCache not found")
+	}
+	// ConfigureNegativeCaching purges negative entries when disabling
+	if fn, ok := p.funcs["AttrCache.ConfigureNegativeCaching"]; ok {
+		purges := false
+		ast.Inspect(fn.Body, func(n ast.Node) bool {
+			if is, ok := n.(*ast.IfStmt); ok && exprString(p.fset, is.Cond) == "!enable" {
+				body := exprString(p.fset, is.Body)
+				if strings.Contains(body, "isNegative") && strings.Contains(body, "delete(c.cache") {
+					purges = true
+				}
+			}
+			return true
+		})
+		f.boolean("disableNegativePurges", purges, true, "")
+	} else {
+		f.boolean("disableNegativePurges", false, false, "func ConfigureNegativeCaching not found")
+	}
 }
